@@ -52,7 +52,7 @@ MN_POOL = ['nop', 'ld', 'ld.b', 'ldx', 'ldi', 'st', 'st.w', 'add', 'addc', 'jmp'
            'call', 'ret', 'sta', 'b_2', 'cmp', 'out', 'in', 'push', 'pop', 'swap', 'jz', 'jnz', 'l', 'ld.bx', 'a.b',
            'x1', 'mov2', 'ADD2', 'Sub', '_nop', 'st_', 'ld_x', 'j_']
 MACRO_POOL = ['push2', 'ldw', 'mov3', 'inc2', 'clr', 'jsr', 'ldq.w', 'pushx', 'po', 'jmp.far', 'cl', 'Clr2', '_save',
-              'rest_', 'm_x']
+              'rest_', 'm_x', 'cpy', 'cpy.w', 'sw', 'sw.x']
 REG_POOL = ['a', 'b', 'x', 'ab', 'sp', 'a1', 'ix', 'mar', 'r0', 'r1', 'hl', 'h', 'r10', 'A2', 'abx', '_r', 'r_', 'x_1', 'b0', 'b10',
             'AH', 'DH', 'c0']
 DESCRIPTIONS = ['vocab ISA', 'A CPU: the "best" one', 'line one\nline two: with colon\n# not a comment', 'tabs\tand \'quotes\'',
@@ -794,12 +794,13 @@ def explore(subseed, cfg):
         if r0['kind'] == 'exit' and r0['exit'] == 0 and not r0.get('gaps'):
             plans = []
             for idx, op, path, detail in r0['events']:
-                if op == 'open' and any(ch in (detail or '') for ch in 'wax+') and not str(detail).startswith('os.open'):
+                if op == 'open' and (any(ch in (detail or '') for ch in 'wax+') or str(detail).startswith('os.open')):
                     size = len(r0['files'].get(path, '')) or 200
                     plans.append([{'at': idx, 'kind': 'open_enospc'}])
                     plans.append([{'at': idx, 'kind': 'close_eio'}])
                     for kk in sorted({0, size // 2, max(size - 30, 0), max(size - 1, 0)}):
                         plans.append([{'at': idx, 'kind': 'write_enospc_after', 'k': kk}])
+                        plans.append([{'at': idx, 'kind': 'write_short_after', 'k': kk}])
             for faults in rnd.sample(plans, min(len(plans), cfg.get('fault_cases', 14))):
                 c = dict(copy.deepcopy(c0), faults=faults)
                 res = check_case(c)
